@@ -8,7 +8,7 @@ model("Notification", module="usim._primitives.notification",
       # ghost bookkeeping: Interrupt.pos of every parked interrupt follows its index (append / pop / remove)
       elem_hooks={"_waiting": {"pos": "Interrupt.pos", "component": 1, "owner": "Interrupt.sub"}})
 
-owner_stable("Interrupt", ["sub", "_revoked", "token"],
+owner_stable("Interrupt", ["sub", "_revoked", "token", "immediate"],
              why="scan W8: revoke()/__subscribe__/__unsubscribe__ are only applied by the activity that owns the interrupt")
 owner_stable("Interrupt", ["due"], when="scheduled",
              why="K2: due is written by Loop.schedule only, and every interrupt is scheduled at most once")
@@ -36,6 +36,7 @@ contract("usim._primitives.notification.Notification.__init__", inv_scope=["Noti
 contract("usim._primitives.notification.Notification.__subscribe__", inv_scope=["Notification", "Interrupt.parked_or_scheduled"],
          params={"self": REF("Notification"), "waiter": ANY, "interrupt": REF("Interrupt")},
          requires=["interrupt.sub is None", "not interrupt.scheduled", "not interrupt._revoked", "waiter is not None"],
+         requires_direct=["implies(isinstance(self, After), self.trigger_due)"],
          ensures=["self._waiting == old(self._waiting) + [(waiter, interrupt)]",
                   "interrupt.sub is self and interrupt.target is waiter",
                   "interrupt.scheduled == old(interrupt.scheduled) and interrupt._revoked == old(interrupt._revoked)"],
